@@ -372,6 +372,8 @@ impl Eng {
             if cfg.zero_share > 0 {
                 w.hal.zero_share_at = Some(cfg.zero_share as u64);
             }
+            // the platform tells mappings with and without ACCESS_PLATFORM apart
+            w.hal.dev_ap = Some(cfg.ap);
         });
         let mut t = MTransport::new();
         let q = match guard(|| new_queue(cfg.log2, &mut t, 0, cfg.indirect, cfg.event_idx, cfg.ap)) {
